@@ -224,12 +224,13 @@ func c04Graph(c *fw.Ctx, seq []int) *fw.Violation {
 }
 
 func init() {
-	var full, deep, narrow *docGen
+	var full, deep, narrow, extra *docGen
 	var sweep []float64
 	setup := func(t fw.Tier) {
 		if full == nil {
 			full = newDocGen(2, 2, docScalarsFull)
 			deep = newDocGen(4, 1, docScalarsFull)
+			extra = newDocGen(1, 2, docScalarsExtra)
 			if t == fw.Thorough {
 				narrow = newDocGen(2, 2, docScalarsFull[:8])
 			} else {
@@ -266,6 +267,10 @@ func init() {
 				}
 				for i := u; i < deep.Count(); i += docUnits {
 					doc := deep.At(i)
+					c.Do(func() any { return c04Spec{Form: "doc", Doc: doc} }, func() *fw.Violation { return c04Doc(c, doc) })
+				}
+				for i := u; i < extra.Count(); i += docUnits {
+					doc := extra.At(i)
 					c.Do(func() any { return c04Spec{Form: "doc", Doc: doc} }, func() *fw.Violation { return c04Doc(c, doc) })
 				}
 				for i := u; i < narrow.Count(); i += docUnits {
